@@ -137,8 +137,8 @@ def confirm_c16(rec, families):
         d0 = dec["dimvals"][c]
         base = replay.concrete_ir_run(comp, ["evaluate"], dec, max_loop_iter=10**6)
         d_big = detail.get("D2") if detail.get("class") == c and detail.get("D2") else None
-        if d_big is None or d_big > d0 + 20000:
-            d_big = min(max(d0, 1) * 100, d0 + 20000)
+        if d_big is None or d_big > d0 + 1000:
+            d_big = min(max(d0, 1) * 100, d0 + 1000)
         big = replay.concrete_ir_run(comp, ["evaluate"], scaled(c, d_big), max_loop_iter=10**6)
         run = {"class": c, "D": d0, "D2": d_big,
                "iterations": [base.get("loop_iterations"), big.get("loop_iterations")],
